@@ -130,7 +130,11 @@ class FamilyRun:
                     "index": i, "prog": self.lines[i],
                     "iteration": sum(1 for l in hl[:k + 1] if l.startswith("BEGIN ")),
                     "impl": hl[k] if k < len(hl) else "<end of output>",
-                    "model": ml[k] if k < len(ml) else "<end of output>"})
+                    "model": ml[k] if k < len(ml) else "<end of output>",
+                    "impl_iters": sum(1 for l in hl if l.startswith("BEGIN ")),
+                    "model_iters": sum(1 for l in ml if l.startswith("BEGIN ")),
+                    "impl_run": next((l for l in hl if l.startswith("RUN ")), ""),
+                    "model_run": next((l for l in ml if l.startswith("RUN ")), "")})
         return mism
 
     def replay_mismatches(self):
@@ -406,6 +410,10 @@ class C14:
         lines += gen.family_random(ctx.seed, n, list("AMRCNHUKFY"), nthreads=(2, 3), maxops=3, prefix="c14a")
         lines += gen.family_random(ctx.seed + 1000, n // 3, list("AF"), nthreads=(2, 3, 4), maxops=3, prefix="c14b")
         lines += gen.family_random(ctx.seed + 2000, n // 3, list("AMN"), nthreads=(2, 3), maxops=3, prefix="c14c", pb=2)
+        # decisions made while exploration is switched off / not yet on (explore, stop_exploring, skip_branch,
+        # explicit-explore mode): which entries take part in the enumeration is part of the Path API contract
+        ctl = [l for l in gen.fam_ctl_core(ctx.tier) if l.startswith(("ctE", "ctK", "ctS", "ctM"))]
+        lines += ctl if ctx.tier != "quick" else ctl[::3]
         return lines
 
     def run(self, ctx):
@@ -422,6 +430,18 @@ class C14:
                 direct.append({"prog": lines[i], **pr})
         if mism:
             res["broken"].append("component replay of rt/path.rs: " + mism[0])
+            # search for a concrete input: a program whose number of iterations differs from the model's
+            # depth-first enumeration (which PathExhaust / L_decisions_distinct show to be exactly the
+            # distinct paths over the decisions open for exploration)
+            for m in fam.whole_run_mismatches():
+                if "index" not in m:
+                    continue
+                if m["impl_iters"] != m["model_iters"] and m["impl_run"].startswith("RUN ok") and m["model_run"].startswith("RUN ok"):
+                    direct.append({"prog": m["prog"], "deviation": f"the iterations are not the depth-first enumeration of the decisions open for exploration: "
+                                   f"the implementation ran {m['impl_iters']} iterations where the enumeration has {m['model_iters']} distinct paths "
+                                   f"(first difference in iteration {m['iteration']})",
+                                   "found_by": "search after component-replay mismatch"})
+                    break
         for d in direct[:3]:
             res["violations"].append(d)
         # termination of single executions: programs whose loops all exit must be explored to the end
